@@ -4,7 +4,7 @@ use triomphe::Arc;
 
 fn main() {
     let mut t = Tally::new();
-    for r in 0..rounds(3) {
+    for r in 0..rounds(6) {
         clone_read_drop::<Arc<Payload>>(&mut t, 3, 20 + r as u64);
     }
     t.finish();
